@@ -150,7 +150,8 @@ def run(repo: Repo, ctx) -> None:
     members = [k for k in src.assign_fields if k.isupper()
                and k != 'UNKNOWN']
     pairs = {}
-    node = mp.node.body[0] if mp.node.body else None
+    node = next((st for st in mp.node.body if isinstance(st, ast.If)), None)
+    tail = []
     while isinstance(node, ast.If):
         t = norm(node.test)
         if t.startswith('card is ir.Cardinality.') and len(node.body) == 1 \
